@@ -21,7 +21,10 @@ DATA = {
     "shares": [["2", "x"], ["3", "y"], ["4", "z"]],
     "fieldRejected": [["1", "a"], ["x", "b"], ["3", "c"]],
     "dupRejected": [["1", "a"], ["2", "b"], ["1", "c"]],
+    # delimited storage: the text itself is malformed in row 4 (see RAW); spreadsheet storage: a field error in row 4
+    "lateDamage": [["1", "a"], ["2", "b"], ["3", "c"], ["y", "d"]],
 }
+RAW = {"lateDamage": '1,a\r\n2,b\r\n3,c\r\n4,"d"x\r\n5,e\r\n'}
 UNTIL = {"absent": [], "all": ["--until", "-1"], "0": ["--until", "0"], "k2": ["--until", "2"], "k9": ["--until", "9"]}
 LIMIT = {"absent": None, "all": None, "0": 0, "k2": 2, "k9": 9}
 
@@ -62,7 +65,11 @@ def materialise(folder, storage):
     spelled = {"fieldRejected": "field[1]Rejected", "dupRejected": "dup?Rejected (copy)", "shares": "shares*"}
     for kind, table in DATA.items():
         paths[kind] = os.path.join(folder, spelled.get(kind, kind) + suffix)
-        write_table(paths[kind], storage, table)
+        if storage == "csv" and kind in RAW:
+            with open(paths[kind], "w", newline="", encoding="utf-8") as target:
+                target.write(RAW[kind])
+        else:
+            write_table(paths[kind], storage, table)
     paths["missing"] = os.path.join(folder, "no_such_*_data" + suffix)
     paths["directory"] = os.path.join(folder, "a_directory" + suffix)
     os.makedirs(paths["directory"], exist_ok=True)
@@ -103,7 +110,7 @@ def api_verdicts(report, paths, storage):
     from cutplace import errors
     for kind in DATA:
         for until, limit in LIMIT.items():
-            bad_at = {"accepted": 0, "shares": 0, "fieldRejected": 2, "dupRejected": 3}[kind]
+            bad_at = {"accepted": 0, "shares": 0, "fieldRejected": 2, "dupRejected": 3, "lateDamage": 4}[kind]
             expected = bad_at > 0 and (limit is None or bad_at <= limit)
             try:
                 cutplace.validate(paths["cid:valid"], paths[kind], validate_until=limit)
